@@ -1,7 +1,7 @@
 (** C19 — threshold metrics count and accumulate exactly what their definition says.
     Property theorems only (model: Model/Metrics.v, tied to evaluate/metrics.py by correspondence K12). *)
 From Coq Require Import QArith ZArith List Bool.
-From IV Require Import QL NP Metrics C19_proofs C19_spells.
+From IV Require Import QL NP Ecdf Metrics C19_proofs C19_spells C19_quantile.
 Import ListNotations.
 Open Scope Q_scope.
 
@@ -85,3 +85,21 @@ Theorem C19_filtered_spec : forall col vals k,
 Proof. exact @filtered_spec. Qed.
 Print Assumptions C19_filtered_spec.
 
+
+(** quantile-defined metrics (ThresholdMetric.from_quantile: threshold = np.quantile(data, q), linear method, modelled
+    by Ecdf.iecdf linear and tied by K4): writing k = floor((n-1) q), at most n - 1 - k values lie strictly above the
+    threshold and at most min(k+1, n-1) strictly below it -- the exceedance count never exceeds (n-1)(1-q) + 1 *)
+Theorem C19_quantile_threshold_exceedance_count : forall x, x <> [] -> forall q, 0 <= q <= 1 ->
+  (Z.of_nat (count_gt (qv x q) x) <= zlen x - 1 - Qround.Qfloor (inject_Z (zlen x - 1) * q))%Z.
+Proof. exact quantile_exceedance_count. Qed.
+Print Assumptions C19_quantile_threshold_exceedance_count.
+
+Theorem C19_quantile_threshold_below_count : forall x, x <> [] -> forall q, 0 <= q <= 1 ->
+  (Z.of_nat (count_lt (qv x q) x) <= Z.min (Qround.Qfloor (inject_Z (zlen x - 1) * q) + 1) (zlen x - 1))%Z.
+Proof. exact quantile_below_count. Qed.
+Print Assumptions C19_quantile_threshold_below_count.
+
+Theorem C19_quantile_threshold_exceedance_frequency : forall x, x <> [] -> forall q, 0 <= q <= 1 ->
+  inject_Z (Z.of_nat (count_gt (qv x q) x)) <= inject_Z (zlen x - 1) * (1 - q) + 1.
+Proof. exact quantile_exceedance_frequency. Qed.
+Print Assumptions C19_quantile_threshold_exceedance_frequency.
